@@ -23,6 +23,7 @@ C_OTHER = [('s', 'const char *'), ('s', 'const char *'), ('ls', 'const wchar_t *
            ('e', 'double'), ('Lf', 'long double'), ('p', 'void *'), ('n', 'int *'), ('hn', 'short int *'), ('a', 'double'), ('S', 'const wchar_t *'),
            ('C', 'wint_t'), ('lf', 'double')]
 C_PREC_OK = set('diouxXaAeEfFgGsS')
+_conv_id = 0
 
 def c_conv(rng, integer=None):
     """one conversion: {'body','type','integer','sw','sp','flags','width','prec'}"""
@@ -30,7 +31,9 @@ def c_conv(rng, integer=None):
         integer = rng.random() < 0.5
     body, tp = rng.choice(C_INT if integer else C_OTHER)
     conv = body[4] if body.startswith('<') else body[-1]
-    d = {'body': body, 'type': tp, 'integer': integer, 'sw': False, 'sp': False, 'flags': '', 'width': '', 'prec': ''}
+    global _conv_id
+    _conv_id += 1
+    d = {'id': _conv_id, 'body': body, 'type': tp, 'integer': integer, 'sw': False, 'sp': False, 'flags': '', 'width': '', 'prec': ''}
     if conv != 'n':
         r = rng.random()
         if r < 0.12:
@@ -47,44 +50,69 @@ def c_conv(rng, integer=None):
             d['flags'] = rng.choice(['-', '+', ' ', '-+'] + (['0'] if conv in 'diouxXaAeEfFgG' and not d['prec'] and not d['sp'] else []))
     return d
 
-def c_ref(convs):
-    """('c', [type per argument], [conversions using each argument], [per conversion: (integer?, argument holding its value)]);
-    an item {'dupof': j, ...} is a further conversion that refers to argument j again"""
-    types, users, info = [], [], []
+def c_layout(convs):
+    """argument slots: ([type per argument], [conversions using each argument], [per conversion: (integer?, argument holding its value)],
+    {conversion id: argument of its value}, [per conversion: argument of its * width or None]).
+    An item {'dupof': j} is a further conversion referring to argument j again; 'sw_to': id makes the `*` width of a
+    conversion refer to the (int) value of another conversion instead of consuming an argument of its own."""
+    types, users, info, value_of, width_of = [], [], [], {}, []
+    ids = {c.get('id') for c in convs}
+    pending = []
     for ci, c in enumerate(convs):
         if 'dupof' in c:
             users[c['dupof']].append(ci)
             info.append((c['integer'], c['dupof']))
+            width_of.append(None)
             continue
-        if c['sw']:
-            types.append('int'); users.append([ci])
+        shared = c.get('sw_to') in ids and c.get('sw_to') is not None
+        if shared:
+            pending.append((ci, c['sw_to']))
+            width_of.append('pending')
+        elif c['sw']:
+            types.append('int'); users.append([ci]); width_of.append(len(types) - 1)
+        else:
+            width_of.append(None)
         if c['sp']:
             types.append('int'); users.append([ci])
         types.append(c['type']); users.append([ci])
         info.append((c['integer'], len(types) - 1))
+        value_of[c['id']] = len(types) - 1
+    for ci, target in pending:
+        j = value_of[target]
+        users[j].append(ci)
+        width_of[ci] = j
+    return types, users, info, value_of, width_of
+
+def c_ref(convs):
+    types, users, info, _, _ = c_layout(convs)
     return ('c', types, users, info)
 
 def c_types(convs):
-    return c_ref(convs)[1]
+    return c_layout(convs)[0]
 
 def c_render(rng, convs, numbered=None, shuffle=True):
     """render a list of conversions: unnumbered in order, or numbered (indices = consumption order) in shuffled order"""
+    types, users, info, value_of, width_of = c_layout(convs)
+    ids = {c.get('id') for c in convs}
     if numbered is None:
         numbered = rng.random() < 0.4
-    if any('dupof' in c for c in convs):
+    if any('dupof' in c or (c.get('sw_to') is not None and c.get('sw_to') in ids) for c in convs):
         numbered = True
     if not convs:
         numbered = False
     pieces = []
     k = 1
-    for c in convs:
+    for ci, c in enumerate(convs):
         if 'dupof' in c:
             pieces.append('%%%d$%s' % (c['dupof'] + 1, c['body']))
             continue
         s = '%'
         w = p = ''
+        shared = c.get('sw_to') is not None and c.get('sw_to') in ids
         if numbered:
-            if c['sw']:
+            if shared:
+                w = '*%d$' % (width_of[ci] + 1)
+            elif c['sw']:
                 w = '*%d$' % k; k += 1
             if c['sp']:
                 p = '.*%d$' % k; k += 1
@@ -136,6 +164,16 @@ def c_perturb(rng, convs, how):
         return cs
     if how == 'drop_two':
         return cs[:-2] if len(cs) >= 2 else None
+    if how == 'drop_shared':
+        # drop the conversion whose value another conversion uses as its * width, and that width
+        ids = {c['id']: j for j, c in enumerate(cs)}
+        cand = [c for c in cs if c.get('sw_to') in ids]
+        if not cand: return None
+        b = rng.choice(cand)
+        del cs[ids[b['sw_to']]]
+        b['sw_to'] = None
+        b['sw'] = False
+        return cs
     if how == 'add':
         cs.insert(rng.randint(0, len(cs)), c_conv(rng))
         return cs
@@ -190,12 +228,13 @@ def c_perturb(rng, convs, how):
         return cs
     raise ValueError(how)
 
-C_HOWS = ['same', 'same', 'same', 'drop_last', 'drop_last_int', 'drop_last_int', 'drop_first', 'drop_any', 'drop_two', 'add', 'add_end', 'retype',
+C_HOWS = ['same', 'same', 'same', 'drop_last', 'drop_last_int', 'drop_last_int', 'drop_first', 'drop_any', 'drop_two', 'drop_shared', 'add', 'add_end', 'retype',
           'retype_last', 'respell', 'restar', 'swap', 'invalid']
 
 def c_string(rng, convs, how, dup=False, **kw):
     if how == 'invalid':
-        base = c_render(rng, convs, numbered=False) if rng.random() < 0.5 else ''
+        plain = [dict(c, sw_to=None) for c in convs if 'dupof' not in c]
+        base = c_render(rng, plain, numbered=False) if rng.random() < 0.5 else ''
         return {'text': base + rng.choice(C_INVALID), 'ref': None, 'how': how}
     cs = c_perturb(rng, convs, how)
     if cs is None:
@@ -211,6 +250,17 @@ def c_sig(rng):
         convs[-1] = c_conv(rng, integer=True)
     if convs and rng.random() < 0.25:
         convs[0] = c_conv(rng, integer=True)
+    if len(convs) >= 2 and rng.random() < 0.12:
+        # the * width of one conversion is the (int) value of another one
+        a = rng.randrange(len(convs))
+        convs[a] = dict(c_conv(rng, integer=True), body=rng.choice(['d', 'i']), type='int', sw=False, sp=False, prec='', flags='', width='')
+        others = [j for j in range(len(convs)) if j != a and convs[j]['body'][-1:] != 'n' or convs[j]['body'].startswith('<')]
+        others = [j for j in others if j != a]
+        if others:
+            bsel = rng.choice(others)
+            convs[bsel]['sw'] = False
+            convs[bsel]['width'] = ''
+            convs[bsel]['sw_to'] = convs[a]['id']
     return convs
 
 # ------------------------------------------------------------------------------------------------ Python %
@@ -622,7 +672,9 @@ def make_string(rng, kind, sig, how=None, **kw):
         kw.setdefault('dup', rng.random() < 0.08)
     return {'c': c_string, 'python': py_string, 'python-brace': brace_string, 'perl-brace': perl_string}[kind](rng, sig, how, **kw)
 
-def drop_int_how(kind):
+def drop_int_how(kind, rng=None):
+    if kind == 'c' and rng is not None and rng.random() < 0.2:
+        return 'drop_shared'
     return {'c': 'drop_last_int', 'python': 'drop_int', 'python-brace': 'drop_int', 'perl-brace': 'drop_any'}[kind]
 
 # ------------------------------------------------------------------------------------------------ plural forms, preimages, ranges
